@@ -51,6 +51,11 @@ type wgen struct {
 	methods map[string]*ast.FuncDecl // "T.Method"
 	funcs   map[string]*ast.FuncDecl
 	readTys map[string]bool // pointer types handled by ReadElement
+	// a trusted helper (part of the model's vocabulary) no longer contains a construct the
+	// model mirrors: the descriptions are still generated -- so that the correspondence run
+	// shows HOW the behaviour changed, with concrete inputs -- and a failing Example in
+	// GenWireSym.v breaks the proof stage
+	helperDrift map[string]string
 }
 
 type wfield struct {
@@ -111,7 +116,7 @@ func loadWire(repo string) (*wgen, error) {
 	g := &wgen{fset: token.NewFileSet(), files: map[string]*ast.File{},
 		consts: map[string]ast.Expr{}, types: map[string]*ast.TypeSpec{},
 		methods: map[string]*ast.FuncDecl{}, funcs: map[string]*ast.FuncDecl{},
-		readTys: map[string]bool{}}
+		readTys: map[string]bool{}, helperDrift: map[string]string{}}
 	dir := filepath.Join(repo, "lnwire")
 	ents, err := os.ReadDir(dir)
 	if err != nil {
@@ -745,6 +750,7 @@ type decState struct {
 	extRead bool
 	optBuf  string // local array the first optional-tail field was read into
 	optLen  uint64
+	scidEnc string // field receiving the encoding type of decodeShortChanIDs
 	lenVar  string // local uint16 holding the length of the byte slice read next
 	lenFld  string // recv field allocated with make([]byte, lenVar)
 }
@@ -1357,6 +1363,34 @@ func (g *wgen) analyseDecode(sname string, fd *ast.FuncDecl) (*wside, error) {
 				}
 				d.side.known = append(d.side.known, r)
 			}
+		case "decodeShortChanIDs":
+			as, isAs := st.(*ast.AssignStmt)
+			if !isAs || len(as.Lhs) != 3 || len(call.Args) != 1 || d.extRead || d.side.cond != nil {
+				return nil, g.bad(st, "unsupported use of decodeShortChanIDs")
+			}
+			f1, ok1 := recvField(as.Lhs[0], d.recv)
+			f2, ok2 := recvField(as.Lhs[1], d.recv)
+			t1, _ := g.structField(sname, f1)
+			t2, _ := g.structField(sname, f2)
+			if !ok1 || !ok2 || t1 == nil || t2 == nil || g.src(t1) != "QueryEncoding" ||
+				g.src(t2) != "[]ShortChannelID" || g.src(as.Lhs[2]) != "err" {
+				return nil, g.bad(st, "decodeShortChanIDs results not stored in (QueryEncoding, []ShortChannelID, err)")
+			}
+			if err := g.scidHelpersOK(); err != nil {
+				g.helperDrift["short_chan_id_helpers"] = err.Error()
+			}
+			d.side.flds = append(d.side.flds, wfield{f2, "FScids"})
+			d.scidEnc = f1
+		case "Decode":
+			// return recv.ExtraData.Decode(r): the extension data, unvalidated
+			sel, _ := call.Fun.(*ast.SelectorExpr)
+			f, ok := recvField(sel.X, d.recv)
+			ft, _ := g.structField(sname, f)
+			if _, isRet := st.(*ast.ReturnStmt); !isRet || !ok || ft == nil || g.src(ft) != "ExtraOpaqueData" ||
+				len(call.Args) != 1 || g.src(call.Args[0]) != "r" || d.extRead || i != len(body)-1 {
+				return nil, g.bad(st, "unsupported call in Decode: %s", g.src(call.Fun))
+			}
+			d.side.term, d.side.extFld, d.extRead = "FRest", f, true
 		case "ReadVarInt":
 			// x, err := tlv.ReadVarInt(r, &buf); ...; recv.F = x
 			as, isAs := st.(*ast.AssignStmt)
@@ -1488,6 +1522,7 @@ type encState struct {
 	prodVar  string // name of the []tlv.RecordProducer variable
 	mergeVar string // result variable of MergeAndEncode
 	done     bool
+	sorted   string // field sorted by `if !recv.noSort { sort.Slice(...) }`
 	packVar  string // var tlvData ExtraOpaqueData; tlvData.PackRecords(producers...)
 	lenVar   string // n := len(recv.F)
 	lenFld   string
@@ -1812,6 +1847,24 @@ func (g *wgen) analyseEncode(sname string, fd *ast.FuncDecl) (*wside, error) {
 					continue
 				}
 			}
+			// if !recv.noSort { sort.Slice(recv.F, func(i, j int) bool { return recv.F[i].ToUint64() < recv.F[j].ToUint64() }) }
+			// (a no-op on a decoded value: decodeShortChanIDs only accepts increasing ids)
+			if u, ok := is.Cond.(*ast.UnaryExpr); ok && u.Op == token.NOT && len(is.Body.List) == 1 {
+				if f, ok := recvField(u.X, e.recv); ok && f == "noSort" {
+					c := stmtCall(is.Body.List[0])
+					if c != nil && g.src(c.Fun) == "sort.Slice" && len(c.Args) == 2 {
+						if sf, ok := recvField(c.Args[0], e.recv); ok {
+							want := fmt.Sprintf("func(i, j int) bool { return %s.%s[i].ToUint64() < %s.%s[j].ToUint64() }",
+								e.recv, sf, e.recv, sf)
+							if g.src(c.Args[1]) == want {
+								e.sorted = sf
+								continue
+							}
+						}
+					}
+				}
+				return nil, g.bad(st, "unsupported if statement in Encode: %s", g.src(is.Cond))
+			}
 			if _, isCall := is.Cond.(*ast.CallExpr); isCall {
 				f, mask, err := g.flagCond(is.Cond, e.recv, sname)
 				if err != nil {
@@ -1937,6 +1990,22 @@ func (g *wgen) analyseEncode(sname string, fd *ast.FuncDecl) (*wside, error) {
 			}
 			e.mergeVar = g.src(as.Lhs[0])
 			e.side.tlv, e.side.mode, e.side.extFld = true, "Merge", f1
+		case name == "encodeShortChanIDs" && len(call.Args) == 3:
+			f1, ok1 := recvField(call.Args[1], e.recv)
+			f2, ok2 := recvField(call.Args[2], e.recv)
+			t1, _ := g.structField(sname, f1)
+			t2, _ := g.structField(sname, f2)
+			if !ok1 || !ok2 || t1 == nil || t2 == nil || g.src(t1) != "QueryEncoding" ||
+				g.src(t2) != "[]ShortChannelID" || e.done || e.side.cond != nil || g.src(call.Args[0]) != "w" {
+				return nil, g.bad(st, "unsupported encodeShortChanIDs call")
+			}
+			if err := g.scidHelpersOK(); err != nil {
+				g.helperDrift["short_chan_id_helpers"] = err.Error()
+			}
+			if e.sorted != "" && e.sorted != f2 {
+				return nil, g.bad(st, "Encode sorts %s but writes %s", e.sorted, f2)
+			}
+			e.side.flds = append(e.side.flds, wfield{f2, "FScids"})
 		case g.src(call.Fun) == "tlv.WriteVarInt" && len(call.Args) == 3:
 			f, ok := recvField(call.Args[1], e.recv)
 			ft, _ := g.structField(sname, f)
@@ -2036,6 +2105,24 @@ func coqString(s string) string {
 		}
 	}
 	return "\"" + b.String() + "\""
+}
+
+// why a message that the fragment does not express is not (yet) worth expressing: what the
+// Coq model (Wire/MsgModel.v) would need.  Appended to the construct-level reason.
+var modelGaps = map[string]string{
+	"AnnounceSignatures2": "pure-TLV message: every non-optional record is re-emitted by AllRecords with its zero " +
+		"value when the peer omitted it, and unknown records survive only inside the signed ranges " +
+		"(ExtraSignedFields); MsgModel.tlvmsg has neither always-records with a non-empty default value " +
+		"nor a range-filtered Merge; harness predicates only",
+	"ChannelAnnouncement2": "pure-TLV message: as AnnounceSignatures2, plus records omitted when equal to a default " +
+		"(chain hash = mainnet genesis); harness predicates only",
+	"NodeAnnouncement2": "pure-TLV message: as AnnounceSignatures2, plus records for colour, alias and per-family " +
+		"address lists; harness predicates only",
+	"ChannelUpdate2": "pure-TLV message: as AnnounceSignatures2, plus records omitted when equal to a default " +
+		"(cltv delta, htlc minimum, fees, disable flags) and the zero-length TrueBoolean record; harness predicates only",
+	"ReplyChannelRange": "the timestamps record (own encoding byte, optionally zlib) must have exactly one entry per " +
+		"short channel id, and Encode sorts the ids and permutes the timestamps along; the plain id list itself " +
+		"is Model.FScids (see QueryShortChanIDs); harness predicates only",
 }
 
 type wmsg struct {
@@ -2248,6 +2335,36 @@ func (g *wgen) updHelpersOK() error {
 	return nil
 }
 
+// decodeShortChanIDs / encodeShortChanIDs are part of the translator's trusted vocabulary
+// (Model.FScids mirrors their PLAIN branch; zlib is left to the harness predicates); they
+// must still contain the constructs the model mirrors.
+func (g *wgen) scidHelpersOK() error {
+	want := map[string][]string{
+		"decodeShortChanIDs": {"ReadElements(r, &numBytesResp)", "if numBytesResp == 0 { return 0, nil, nil }",
+			"io.ReadFull(r, queryBody)", "encodingType := QueryEncoding(queryBody[0])", "queryBody = queryBody[1:]",
+			"case EncodingSortedPlain: if len(queryBody)%8 != 0 {", "numShortChanIDs := len(queryBody) / 8",
+			"if numShortChanIDs == 0 { return encodingType, nil, nil }",
+			"if i > 0 && cid.ToUint64() <= lastChanID.ToUint64() { return 0, nil, ErrUnsortedSIDs{lastChanID, cid} }",
+			"default: return 0, nil, ErrUnknownShortChanIDEncoding(encodingType)"},
+		"encodeShortChanIDs": {"case EncodingSortedPlain: numBytesBody := uint16(len(shortChanIDs)*8) + 1",
+			"WriteUint16(w, numBytesBody)", "WriteQueryEncoding(w, encodingType)",
+			"for _, chanID := range shortChanIDs { if err := WriteShortChannelID(w, chanID)"},
+	}
+	for fn, subs := range want {
+		fd, ok := g.funcs[fn]
+		if !ok {
+			return &unsup{"helper " + fn + " not found"}
+		}
+		src := g.src(fd.Body)
+		for _, sub := range subs {
+			if !strings.Contains(src, sub) {
+				return g.bad(fd, "helper %s no longer contains `%s`", fn, sub)
+			}
+		}
+	}
+	return nil
+}
+
 // failure payload = fixed fields ++ u16 length ++ channel_update (see MsgModel.updfail):
 //
 //	Decode: ReadElement(r, &f.X)...; var length uint16; ReadElement(r, &length);
@@ -2263,8 +2380,8 @@ func (g *wgen) updFailure(sname string, dm, em *ast.FuncDecl) (dec, enc []wfield
 		return nil, nil, false, false, false, nil
 	}
 	matched = true
-	if err = g.updHelpersOK(); err != nil {
-		return
+	if herr := g.updHelpersOK(); herr != nil {
+		g.helperDrift["channel_update_helpers"] = herr.Error()
 	}
 	if len(dm.Recv.List[0].Names) != 1 || len(em.Recv.List[0].Names) != 1 {
 		err = g.bad(dm, "receiver without a name")
@@ -2520,6 +2637,9 @@ func wireCore(repo string) (string, string, error) {
 				why = append(why, "Encode: "+eerr.Error())
 			}
 			reason := m.sname + ": " + strings.Join(why, "; ")
+			if gap, ok := modelGaps[m.sname]; ok {
+				reason += " -- " + gap
+			}
 			fmt.Fprintf(&b, "(* unsupported: %s *)\n\n", strings.ReplaceAll(reason, "*)", "* )"))
 			unsupp = append(unsupp, fmt.Sprintf("(%d, %s)", m.typ, coqString(reason)))
 			continue
@@ -2668,6 +2788,16 @@ func wireCore(repo string) (string, string, error) {
 		b.WriteString("Definition gen_upd : tlvmsg := msg_ChannelUpdate1.\n\n")
 	} else {
 		b.WriteString("Definition gen_upd : tlvmsg := {| tm_pre := []; tm_cond := None; tm_known := []; tm_mode := Repack; tm_excl := [] |}.\n\n")
+	}
+	var drift []string
+	for k := range g.helperDrift {
+		drift = append(drift, k)
+	}
+	sort.Strings(drift)
+	for _, k := range drift {
+		fmt.Fprintf(&sym, "(* trusted helper changed: %s *)\n", strings.ReplaceAll(g.helperDrift[k], "*)", "* )"))
+		fmt.Fprintf(&sym, "Example %s_unchanged : true = false. Proof. reflexivity. Qed.\n", k)
+		fmt.Fprintf(&b, "(* TRUSTED HELPER CHANGED (%s): %s *)\n", k, strings.ReplaceAll(g.helperDrift[k], "*)", "* )"))
 	}
 	wr("gen_layouts", "msg_table", plain)
 	wr("gen_failures", "msg_table", fails)
